@@ -131,6 +131,7 @@ type World struct {
 	tsBase  uint64
 	forceKind   int // when non-zero genTxs produces one transaction of this kind by wallet forceWallet (if possible)
 	forceWallet int
+	forceFullUnstake bool // a generated unstake takes the whole fund
 	forceZeroOut bool   // the first output of a generated transfer has amount 0
 	forceCorrupt string // when set, the first generated transaction carries this corruption
 }
